@@ -195,6 +195,11 @@ impl Dgo {
         proof { lemma_deg_zero(self, v as int); }
     @*/
 
+    /*@fn trait=ContiguousOrder name=contiguous_order file=src/op/contiguous_order.rs dropwhere=Self props=C02,C13
+    ensures
+        r == self.ord(),
+    @*/
+
     /*@fn trait=Outdegree name=is_sink file=src/op/outdegree.rs props=C02,C13
     requires
         self.wf(),
